@@ -57,7 +57,7 @@ def own_crossings(x, y, step):
         dy = y[i + 1] - y[i]
         width = abs(x[i + 1] - x[i])
         yscale = max(1.0, abs(y[i] / step), abs(y[i + 1] / step))
-        slack = min(width, 64 * 2.0 ** -52 * yscale / (abs(dy / step) / width)) if dy != 0 else width
+        slack = min(width, 64 * 2.0 ** -52 * yscale / (abs(dy / step) / width)) if dy != 0 and width > 0 else width
         for k in tuple(must) + tuple(maybe):
             target = k * step
             xt = x[i] + (target - y[i]) * (x[i + 1] - x[i]) / dy
